@@ -35,6 +35,8 @@ _SY = ("the real conformance.ground_truth / __main__.main on an in-memory file s
 CLAIMED["C09"] = ("sync agreement for every truth kind x given kinds x target pre-state x function|method x description: " + _SY, "DESIGN.md#c09")
 CLAIMED["C10"] = ("sync histories of 1..3 invocations with solver-chosen truth kinds from every pre-state combination: idempotence, truth file "
     "never opened for writing, report == byte changes: " + _SY, "DESIGN.md#c10")
+CLAIMED["C11"] = ("preservation: (S) RewriteAtQuery on hand-built modules with symbolic identifiers (target among siblings sharing names), "
+    "(F) the real sync on the in-memory FS over target modules x position x trailing newline x pre-state with the named definition masked", "DESIGN.md#c11")
 NA = {
     "C19": "gen: every data path crosses importlib / inspect.getsource / compile+exec / file output, no symbolic data path is left; what remains is enumeration of a few concrete configurations, which is not this technique (DESIGN.md §C19)",
 }
